@@ -1395,6 +1395,16 @@ mutual
     | .elif_ cnd t r => okQ true 1 cnd && okQ true 1 t && okIf r
 end
 
+/-- the OPERATOR-SHAPE part of `okQ` alone (terms, names, patterns and the queries inside them are
+    not inspected): every operand the printer writes without parentheses binds tightly enough -/
+def precOK : Bool → Nat → Query → Bool
+  | _, _, .term _ => true
+  | _, min, .binop o l r =>
+    decide (min ≤ o.lv) && precOK false o.lmin l && closedQ l && precOK (decide (o.lv ≤ 2)) o.rmin r
+  | item, min, .bind s ps b => item && decide (min ≤ 3) && precOK false 3 s && !ps.isEmpty && precOK true 1 b
+  | item, _, .def_ _ q => item && precOK true 1 q
+  | item, _, .label _ b => item && precOK true 1 b
+
 /-- `Printable q`: `q` has the shape of a query the parser can produce -/
 def Printable (q : Query) : Bool := okQ true 1 q
 
@@ -1544,6 +1554,25 @@ def itemsOK : Option UInt8 → Bool → List Nat → List Item → Bool
        | some ch => if isDotOrDigit ch then itemsOK (some 32) false stk r else itemsOK last false stk r
        | none => itemsOK none false stk r)
 
+/-- the order in which the lexer delivers the tokens of interpolated strings: after the opening
+    quote a `\(` follows, directly or after one literal piece; never two literal pieces in a row -/
+def shapeOK : List Tok → Bool
+  | [] => true
+  | .strStart :: rest =>
+    (match rest with
+     | .strQuery :: _ => shapeOK rest
+     | .chunk _ :: .strQuery :: _ => shapeOK rest
+     | _ => false)
+  | .chunk _ :: rest =>
+    (match rest with
+     | .chunk _ :: _ => false
+     | _ => shapeOK rest)
+  | _ :: rest => shapeOK rest
+
+/-- a token list the lexer can have produced, as far as the parser's image is concerned: every
+    token well-formed, interpolation tokens in lexer order (decidable) -/
+def goodB (ts : List Tok) : Bool := ts.all Tok.wf && shapeOK ts
+
 /-- `Spaced q`: the printed text of `q` satisfies the adjacency condition (decidable) -/
 def Spaced (q : Query) : Bool := itemsOK none false [] (itemsQ q)
 
@@ -1603,7 +1632,8 @@ def selfCheck (src : Bytes) : String :=
   match refParseQ (16 * src.length + 64) (tokensOf src) with
   | none => selfCheckP src
   | some q =>
-    if !Printable q then "NOT-PRINTABLE"
+    if !goodB (tokensOf src) then "TOKENS-NOT-GOOD"
+    else if !Printable q then "NOT-PRINTABLE"
     else if !Spaced q then "NOT-SPACED"
     else
       let ts := tokensOf (printQ q)
